@@ -26,6 +26,36 @@ namespace c08
     unsigned long nbad = 0;
     unsigned long ncalls = 0;
     const char *ONLY = nullptr;
+    bool RO_ON = false;
+    int ro_mask_for(const char *fn)
+    {
+        // slot 0 = first operand, 1 = second operand / destination, 2 = strtok's delimiter set
+        static const char *src0[] = {"memcpy", "strcpy", "strncpy", "strlcpy", "strcat", "strncat", "strdup", "strndup"};
+        static const char *both[] = {"memcmp", "memchr", "memrchr", "strlen", "strnlen", "strcmp", "strncmp", "strcasecmp", "strncasecmp", "strchr", "strrchr",
+                                     "strchrnul", "strstr", "strcasestr", "strspn", "strcspn", "strpbrk"};
+        for (const char *f : src0)
+            if (!strcmp(f, fn))
+                return 1;
+        for (const char *f : both)
+            if (!strcmp(f, fn))
+                return 3;
+        if (!strcmp(fn, "strtok") || !strcmp(fn, "strtok_r"))
+            return 4;
+        return 0; // memmove (overlap runs share one buffer), memset, strlwr, strupr: no const operand in its own arena
+    }
+    bool guarded_ro(const std::function<void()> &f)
+    {
+        if (!RO_ON || !K.ro)
+            return mc::guarded(f);
+        for (int i = 0; i < 3; i++)
+            if (K.ro >> i & 1)
+                I[i].readonly(true);
+        bool ok = mc::guarded(f);
+        for (int i = 0; i < 3; i++)
+            if (K.ro >> i & 1)
+                I[i].readonly(false);
+        return ok;
+    }
     std::vector<size_t> large_lengths()
     {
         std::vector<size_t> v = {127, 128, 254, 255, 256, 257, 300, 1000};
@@ -149,7 +179,9 @@ namespace c08
 
     void fault()
     {
-        if (K.pl == AFTER)
+        if (RO_ON && K.ro)
+            bad("write_to_const_operand_or_guard_fault", "faulted while the const operands were mapped read-only: wrote to a const input, or touched a guard page");
+        else if (K.pl == AFTER)
             bad("access_past_end", "touched the inaccessible page after an operand (over-read or over-write), or a wild address");
         else
             bad("access_before_start", "touched the inaccessible page before an operand (under-read or under-write), or a wild address");
